@@ -143,7 +143,15 @@ func (f *Function) Eval(s *Scope, depth int) (result Object) {
 		}
 		v := s.Eval(arg, d2)
 		if vs, ok := v.(Values); ok && !skip {
-			v = vs[0]
+			if 0 < len(vs) {
+				v = vs[0]
+			} else {
+				v = nil
+			}
+		}
+		if _, ok := v.(NonLocalExit); ok {
+			// Control is leaving so the function is not called.
+			return v
 		}
 		args[i] = v
 	}
